@@ -30,6 +30,13 @@ theorem tf_handleEvent_body_eq_model (cl : List A → List (List A)) (hs : ClSan
     tfHandleKey genTf cl tf ev = some ((TextFieldCl.handleKey cl tf ev).1, (TextFieldCl.handleKey cl tf ev).2.map callName) :=
   handleEvent_body_eq_model cl hs tf ev
 
+/-- `HandleEvent` when the application installed no callback (`tf.OnSubmit == nil`, `tf.OnChange == nil`: the other
+    branches of `HandleEvent` / `checkChanged`): the state changes exactly as with callbacks, nothing is called. -/
+theorem tf_handleEvent_nocb_body_eq_model (cl : List A → List (List A)) (hs : ClSane cl) (tf : TextFieldCl.TF A)
+    (ev : TextField.KeyEv A) :
+    tfHandleKeyNoCb genTf cl tf ev = some ((TextFieldCl.handleKey cl tf ev).1, []) :=
+  handleEvent_nocb_body_eq_model cl hs tf ev
+
 open VaxisModel.Lemmas.EditorCl (TFOpC tfRunC absC specOfC) in
 open VaxisModel.Spec.Editor (runC) in
 /-- End to end, for EVERY segmentation meeting the three laws and every history (key events through
